@@ -355,10 +355,7 @@ func randString(c *vh.Ctx) string {
 }
 
 func runStrings(c *vh.Ctx) {
-	maxLen := 4
-	if c.Thorough() {
-		maxLen = 5
-	}
+	maxLen := 4 // (length 5 over the small alphabet took more than an hour in the thorough tier)
 	enumStrings(smallAlphabet, maxLen, func(s string) {
 		if !c.Failed() {
 			c.Hist("gen:exhaustive-small-alphabet")
